@@ -275,6 +275,35 @@ def oracle(rc, st):
             raise Violation(("filter_output", {"expr": "before_error"}),
                             "EliotFilter stopped at input line %d (not JSON) having written %d of the %d lines before it" % (
                                 k, len(got), k))
+    # an expression whose value for one line cannot be encoded (a timedelta inside it) fails for that line; what
+    # has been written is still whole lines: the encodings of the lines before it, no fragment of the failing one
+    if tlines:
+        k = st.choose(len(tlines), "unencodable-at")
+        Jk = json.loads(tlines[k])
+        kk = lambda d: (d.get("task_uuid"), d.get("task_level")) if isinstance(d, dict) else None  # noqa
+        if isinstance(Jk, dict) and isinstance(Jk.get("task_uuid"), str) and isinstance(Jk.get("task_level"), list) \
+                and all(isinstance(x, int) for x in Jk["task_level"]) \
+                and not any(kk(json.loads(x)) == kk(Jk) for x in tlines[:k]):
+            expr = "{'seen': J, 'took': [1, {'x': timedelta(1)}]} if (J.get('task_uuid'), J.get('task_level')) == %r else J" % (
+                kk(Jk),)
+            out = io.StringIO()
+            try:
+                EliotFilter(expr, tlines, out).run()
+                raise Violation("filter_output", "EliotFilter encoded a timedelta silently")
+            except TypeError:
+                pass
+            except Violation:
+                raise
+            except Exception as ex:  # noqa
+                raise Violation(("filter_abort", {"exc": type(ex).__name__}),
+                                "EliotFilter with an unencodable value raised %s: %s" % (type(ex).__name__, ex))
+            text = out.getvalue()
+            got = text.split("\n")
+            frag = got.pop()
+            if frag or len(got) != k or any(json.loads(o) != json.loads(ln) for o, ln in zip(got, tlines[:k])):
+                raise Violation(("filter_output", {"expr": "fragment" if frag else "before_error"}),
+                                "EliotFilter failed to encode the value for input line %d having written %d whole "
+                                "lines and the fragment %r" % (k, len(got), frag[:100]))
     elines = [ln for ln, (c, v) in zip(kept, classes) if c == "eliot"]
     out = io.StringIO()
     expr = "SKIP if len(J['task_level']) %% %d == %d else J['task_level']" % (2 + st.choose(2, "mod"), st.choose(2, "rem"))
